@@ -4,9 +4,6 @@ total`) rules out every `Amount` overflow once the wallet total is below 2^64. -
 namespace Ord.Builder
 open Ord Ord.Outcome
 
-/-- total value of the wallet as the builder sees it (`amounts[k]` for every key) -/
-def walletTotal (w : Wallet) : Nat := inSum w (w.amounts.map (·.1))
-
 /-- invariant of stages 1–4: remaining utxos are wallet keys, there is an output, and
 outputs + remaining utxos never exceed the wallet total -/
 structure Inv (w : Wallet) (st : St) : Prop where
